@@ -472,18 +472,26 @@ class Ctx:
             paths.append(p)
         self.last_coq_errors = []
 
-        def run(p):
+        def run(p, tmo=timeout):
             with CpuSlot():
                 rc, out = sh(
-                    f"ulimit -s unlimited 2>/dev/null; timeout {timeout} coqc -Q {THEORIES} Verif -w none {p}",
-                    timeout=timeout + 30, cwd=self.work,
+                    f"ulimit -s unlimited 2>/dev/null; timeout {tmo} coqc -Q {THEORIES} Verif -w none {p}",
+                    timeout=tmo + 30, cwd=self.work,
                 )
             if rc != 0:
-                return None, out
+                return None, f"[rc={rc}] " + out
             return parse_verdicts(out), out
 
         with ThreadPoolExecutor(max_workers=NCPU) as ex:
             results = list(ex.map(run, paths))
+        # a shard that was killed or ran out of time (overloaded machine) is evaluated once more, few at a time, with twice
+        # the time; a shard that Coq rejected is not retried
+        again = [i for i, (v, o) in enumerate(results) if v is None and o.startswith(("[rc=124]", "[rc=137]", "[rc=-9]"))]
+        if again:
+            self.log(f"{len(again)} Coq shard(s) killed / timed out, evaluating them once more")
+            with ThreadPoolExecutor(max_workers=4) as ex:
+                for i, r in zip(again, ex.map(lambda i: run(paths[i], 2 * timeout), again)):
+                    results[i] = r
         out = []
         for p, (v, o) in zip(paths, results):
             if v is None:
